@@ -15,6 +15,7 @@ func init() {
 	register(&Prop{ID: "C20", Run: runC20,
 		Technique: "static analysis: dominating-condition sets of the guarded client calls in the API action handler, value-flow of the tested status and of the edited object, who-may-write footprint of the status edit (go/ssa)",
 		Decided: []string{
+			"the parameters of an accepted start reach the spawned start command: request Body.Params → StartOptions.Params → the -p argument, whose quoting by the client and unquoting by the start command agree (C11.param-flow, shared)",
 			"start is issued only under latest-status != running, stop only under == running, a status edit only under latest-status != running with non-empty request id and step; the status tested is the DAG's latest status obtained by GetStatus(DagID) (C20.guards)",
 			"no mutating client call precedes a refusal that is not caused by that call's own error (C20.refusal-is-pure)",
 			"the status edit stores only Status and StatusText of Nodes[i] of the run read by request id, i being set only under Nodes[i].Step.Name == body.Step, the value being the action's constant; that same object is what UpdateStatus receives (C20.edit-footprint)",
@@ -29,6 +30,7 @@ var c20Mutators = map[string]bool{"StartAsync": true, "Start": true, "Stop": tru
 
 func runC20(e *Env) {
 	r := e.R
+	c11ParamFlow(e) // "a start passes the given parameters through unchanged"
 	pa := e.Fn(feDagRel, "(*Handler).postAction")
 	pu := e.Fn(feDagRel, "(*Handler).processUpdateStatus")
 	if pa == nil || pu == nil {
